@@ -220,7 +220,7 @@ func VerifC07Args(caseN int) {
 // VerifC07Sequence: L operations, each a FREE choice among the seven, on contact p (and one interleaved on q), from the
 // empty log; after each step state, seed and metadata equal the reference lifecycle; finally a fresh index replaying
 // the same log (another replica / reopen) reports the same contacts.
-func VerifC07Sequence(steps, firstOp int) {
+func VerifC07Sequence(steps, firstOp, lean int) {
 	m, ss := verifAccountStore("acct")
 	_, pk := verifFreshKey()
 	raw, _ := pk.Raw()
@@ -235,10 +235,17 @@ func VerifC07Sequence(steps, firstOp int) {
 		if i == 0 && firstOp >= 0 {
 			verif_assume(op == firstOp) // job split: the first operation is fixed per job, all seven jobs are run
 		}
-		onQ := verif_anyBool("onQ")
+		onQ := false
+		var md []byte
+		if lean == 0 {
+			onQ = verif_anyBool("onQ")
+			md = verif_anyBytes("meta")
+		} else if verif_anyBool("with-metadata") {
+			// lean variant for longer sequences: one contact, metadata either absent or some fixed non-empty bytes
+			md = []byte("metadata")
+		}
 		s := make([]byte, 32)
 		_, _ = verifRandRoot(s)
-		md := verif_anyBytes("meta")
 		if onQ {
 			err := verifC07Do(m, op, qk, qraw, s, md)
 			ns, _, we := verifC07Ref(op, qst)
